@@ -33,13 +33,13 @@ func (c *Ctx) generatorTable(r *Report, rule, pkg string) map[string]genRow {
 		if row.gen == nil {
 			// adaptFlightGenerator(f): take the adapted function
 			if call, ok := ro.Raw[0].(*ssa.Call); ok && len(call.Call.Args) == 1 {
-				row.gen = funcOfValue(call.Call.Args[0])
+				row.gen = funcOfValue(resolvePhis(call.Call.Args[0], ro.RawEnv))
 			}
 		}
-		if b, ok := constBool(ro.Raw[1]); ok {
+		if b, ok := constBool(resolvePhis(ro.Raw[1], ro.RawEnv)); ok {
 			row.retransmit = vBool(b)
 		}
-		if b, ok := constBool(ro.Raw[2]); ok {
+		if b, ok := constBool(resolvePhis(ro.Raw[2], ro.RawEnv)); ok {
 			row.ok = vBool(b)
 		}
 		out[name] = row
@@ -563,6 +563,25 @@ func (c *Ctx) onlyAdvancesAfter(r *Report, rule string, fn *ssa.Function, call *
 	}
 	w := (&Walk{Fn: fn, Assume: assume}).After(call)
 	bad := ""
+	if fn.Signature.Results().Len() != 3 {
+		// a helper around the store: once the store succeeded it reports success, and its
+		// callers are judged in its place
+		for _, ro := range w.Returns {
+			res := retResults(ro.Ret)
+			if n := len(res); n > 0 && isErrorType(res[n-1].Type()) && !isNilConst(res[n-1]) {
+				bad = "the helper can still fail after storing, at " + c.ipos(ro.Ret)
+			}
+		}
+		r.Check(bad == "" && len(w.Returns) > 0, rule, key, c.ipos(call), "after the session is stored the helper reports success", "the session is stored (made resumable) on a path that can still fail: "+bad)
+		if depth < 2 {
+			for _, s := range c.CallsToName(short(fn)) {
+				if cc, ok := s.Call.(*ssa.Call); ok && s.Fn != fn {
+					c.onlyAdvancesAfter(r, rule, s.Fn, cc, depth+1)
+				}
+			}
+		}
+		return
+	}
 	for _, ro := range w.Returns {
 		res := retResults(ro.Ret)
 		if len(res) != 3 {
@@ -615,10 +634,18 @@ func ruleSecondHelloEqualsFirst(c *Ctx, r *Report) {
 		return
 	}
 	r.Sites += len(fn.Blocks)
-	ok0 := successReturn(fn)
-	if ok0 == nil {
-		r.Unk(rule, short(fn), c.pos(fn.Pos()), "no unique nil return")
+	oks := possibleSuccessReturns(fn)
+	if len(oks) == 0 {
+		r.Unk(rule, short(fn), c.pos(fn.Pos()), "no return that can succeed")
 		return
+	}
+	guardsAll := func(e *ssa.Call) bool {
+		for _, ok0 := range oks {
+			if g, _ := guardedBy(e, e, ok0); !g {
+				return false
+			}
+		}
+		return true
 	}
 	// part(v) = (which snapshot parameter, which component) when v is a component of
 	// helloVerifyClientHelloParts(<param>)
@@ -646,9 +673,7 @@ func ruleSecondHelloEqualsFirst(c *Ctx, r *Report) {
 		a, b := e.Call.Args[0], e.Call.Args[1]
 		pa, ia := part(a)
 		pb, ib := part(b)
-		var rv ssa.Value = e
-		g, _ := guardedBy(e, rv, ok0)
-		if !g {
+		if !guardsAll(e) {
 			continue
 		}
 		switch {
@@ -713,9 +738,9 @@ func ruleRetryHelloPrefix(c *Ctx, r *Report) {
 		return
 	}
 	r.Sites += len(fn.Blocks)
-	okRet := successReturn(fn)
-	if okRet == nil {
-		r.Unk(rule, short(fn), c.pos(fn.Pos()), "no unique nil return")
+	oks := possibleSuccessReturns(fn)
+	if len(oks) == 0 {
+		r.Unk(rule, short(fn), c.pos(fn.Pos()), "no return that can succeed")
 		return
 	}
 	const tSnap = "internal/negotiation.ClientHelloSnapshot"
@@ -741,7 +766,13 @@ func ruleRetryHelloPrefix(c *Ctx, r *Report) {
 	for _, e := range findCalls(fn, nameIs("bytes.Equal", "crypto/subtle.ConstantTimeCompare", "crypto/hmac.Equal")) {
 		a, b := prefixOf(e.Call.Args[0]), prefixOf(e.Call.Args[1])
 		if a >= 0 && b >= 0 && a != b {
-			if g, _ := guardedBy(e, e, okRet); g {
+			all := true
+			for _, okRet := range oks {
+				if g, _ := guardedBy(e, e, okRet); !g {
+					all = false
+				}
+			}
+			if all {
 				good = true
 			}
 		}
@@ -780,15 +811,14 @@ func ruleSessionAdapterPreservesMiss(c *Ctx, r *Report) {
 	const rule = "session-adapter"
 	n := 0
 	for _, st := range c.StoresTo(tCfg, "GetSession") {
-		mc, ok := st.Val.(*ssa.MakeClosure)
-		if !ok {
-			if k, isC := st.Val.(*ssa.Const); isC && k.Value == nil {
-				continue
-			}
-			r.Unk(rule, short(st.Fn), c.ipos(st.Instr), "GetSession is not set to a function literal")
+		if k, isC := st.Val.(*ssa.Const); isC && k.Value == nil {
 			continue
 		}
-		lit := mc.Fn.(*ssa.Function)
+		lit := funcDenoted(st.Val, 0)
+		if lit == nil {
+			r.Unk(rule, short(st.Fn), c.ipos(st.Instr), "GetSession is not set to a function literal (directly or through a constructor helper)")
+			continue
+		}
 		r.Sites += len(lit.Blocks)
 		for _, b := range lit.Blocks {
 			ret, isRet := b.Instrs[len(b.Instrs)-1].(*ssa.Return)
@@ -847,4 +877,41 @@ func ruleSessionWrittenOnceByFullHandshake(c *Ctx, r *Report) {
 		r.Check(!reaches(fn), rule, short(fn), c.pos(fn.Pos()), "the abbreviated-handshake path does not write the session store", "an abbreviated-handshake function writes the session store: a session deleted after a fatal alert can be re-inserted by a concurrent resumption and is offered again")
 	}
 	r.Floor(rule, n, 3)
+}
+
+
+// funcDenoted resolves a function value to the function it denotes: a function, a function
+// literal, or what a module helper returns as its single function-typed result.
+func funcDenoted(v ssa.Value, d int) *ssa.Function {
+	if d > 3 || v == nil {
+		return nil
+	}
+	switch x := v.(type) {
+	case *ssa.Function:
+		return x
+	case *ssa.MakeClosure:
+		f, _ := x.Fn.(*ssa.Function)
+		return f
+	case *ssa.ChangeType:
+		return funcDenoted(x.X, d+1)
+	case *ssa.Call:
+		callee := x.Call.StaticCallee()
+		if callee == nil || len(callee.Blocks) == 0 || !inModule(callee) {
+			return nil
+		}
+		var out *ssa.Function
+		for _, b := range callee.Blocks {
+			ret, ok := b.Instrs[len(b.Instrs)-1].(*ssa.Return)
+			if !ok || len(ret.Results) != 1 {
+				continue
+			}
+			f := funcDenoted(unspill(ret.Results[0]), d+1)
+			if f == nil || (out != nil && out != f) {
+				return nil
+			}
+			out = f
+		}
+		return out
+	}
+	return nil
 }
